@@ -171,16 +171,22 @@ def std_traces(target, rng, tier):
         for _ in range(rng.randint(2, 10)):
             idx = rng.choice(STD_INDEX) if rng.random() < 0.7 else rng.randrange(65536)
             base = dict(type=0, recipient=2, request=1, value=0, index=idx, length=0, is_in_request=0)
+            r = rng.random()
+            if r < 0.15: base["value"] = 1                      # another feature selector
+            elif r < 0.3: base["recipient"] = rng.choice([0, 1])  # not an endpoint
+            elif r < 0.45: base["request"] = rng.choice([0, 3, 5, 9, 8])
+            elif r < 0.5: base["type"] = rng.choice([1, 2])
             def cyc(**kw):
                 c = dict(received=0, ack=0, status_requested=0, data_requested=0, tx_ready=rng.randrange(2))
                 c.update(base); c.update(kw); return c
             for _ in range(rng.randint(0, 3)): tr.append(cyc())
-            tr.append(cyc(received=1))
+            tr.append(cyc(received=1, ack=int(rng.random() < 0.1)))
+            if rng.random() < 0.15: tr.append(cyc(received=1, ack=int(rng.random() < 0.3)))     # SETUP repeated
             for _ in range(rng.randint(0, 3)): tr.append(cyc(ack=int(rng.random() < 0.1)))
             tr.append(cyc(status_requested=1))
             for _ in range(rng.randint(0, 3)): tr.append(cyc())
             if rng.random() < 0.8: tr.append(cyc(ack=1))
-        if k % 4 == 3:      # other requests (outside the monitor's environment; exercised for the translator validation)
+        if k % 4 == 3:      # unstructured
             for _ in range(30):
                 tr.append(dict(received=rng.randrange(2), ack=rng.randrange(2), status_requested=rng.randrange(2),
                                data_requested=rng.randrange(2), tx_ready=rng.randrange(2), is_in_request=rng.randrange(2),
@@ -241,11 +247,18 @@ def out_alphabet(ep, level):
 
 
 def std_alphabet(tier):
+    """all 32 control-strobe combinations x setup.type x request x recipient x feature selector x wIndex values"""
     words = []
-    idxs = STD_INDEX if tier != "quick" else STD_INDEX[:5]
+    idxs = STD_INDEX[:4] if tier == "quick" else STD_INDEX
+    types = [0, 2] if tier != "quick" else [0]
+    reqs = [1, 0] if tier == "quick" else [1, 0, 5, 3]          # CLEAR_FEATURE, GET_STATUS, SET_ADDRESS, SET_FEATURE
     for ctl in range(32):
-        for idx in idxs:
-            words.append(ctl | 0 << 6 | 2 << 8 | 1 << 13 | 0 << 21 | idx << 37)
+        for ty in types:
+            for rq in reqs:
+                for rc in (2, 0):
+                    for val in (0, 1):
+                        for idx in idxs:
+                            words.append(ctl | ty << 6 | rc << 8 | rq << 13 | val << 21 | idx << 37)
     return "[" + "; ".join(str(w) for w in words) + "]", len(words)
 
 
@@ -283,9 +296,10 @@ def obligations(targets, tier):
         else:
             al, n = std_alphabet(tier)
             obs.append(tie.rmon(f"ob_{t.name}", t, mon="c14d_mon", m0="0", alpha_bits=0, alphabet=al, fuel=200000,
-                                describe=f"StandardRequestHandler: clear_endpoint_halt strobe = host ACK while CLEAR_FEATURE is handled, "
-                                         f"direction = wIndex[7], number = wIndex[3:0], no strobe otherwise; all traces over {n} input "
-                                         f"words (all 32 control-strobe combinations x wIndex values), CLEAR_FEATURE(ENDPOINT_HALT) requests"))
+                                describe=f"StandardRequestHandler: clear_endpoint_halt strobe = host ACK while the latest SETUP is a pending "
+                                         f"CLEAR_FEATURE(ENDPOINT_HALT, endpoint), direction = wIndex[7], number = wIndex[3:0], no strobe "
+                                         f"otherwise; all traces over {n} input words (all 32 control-strobe combinations x request kinds "
+                                         f"x recipient x feature selector x wIndex values" + ("" if tier == "quick" else " x setup.type") + ")"))
     return obs
 
 
@@ -325,10 +339,12 @@ ASSUMPTIONS = [
     "configuration (max_packet_size, buffer_size) in {(1,1)} (thorough: (1,1), (1,2), (2,3)) on the cone of influence of (ack, nak, "
     "toggle), over an explicit input alphabet; realistic sizes by the same monitor on simulator traces.  No parametric model of the "
     "OUT endpoint is proved here",
-    "decode (StandardRequestHandler): environment = the control requests are standard CLEAR_FEATURE(ENDPOINT_HALT) requests to an "
-    "endpoint (the property's quantifier).  Robustness remarks outside it (not checked here, cf. C07/C08): the strobe fires on ANY "
-    "handshakes_in.ack while the CLEAR_FEATURE state is active (also an ACK meant for another endpoint before the status stage) and is "
-    "not gated by the feature selector / recipient",
+    "decode (StandardRequestHandler, as repaired by the C07/C10 fixes: every SETUP re-dispatches from any state; CLEAR_FEATURE with "
+    "another selector or recipient goes to UNHANDLED): no environment assumption; the tie alphabet covers all 32 control-strobe "
+    "combinations, CLEAR_FEATURE / GET_STATUS (thorough: + SET_ADDRESS, SET_FEATURE, non-standard type), recipient endpoint/device, "
+    "selector 0/1 and 4-7 wIndex values; GET_DESCRIPTOR requests only on simulator traces.  Robustness remark (within the rule as "
+    "stated): 'host ACK' is any handshakes_in.ack while the request is pending, also one meant for another endpoint before the "
+    "status stage (cf. C08)",
 ]
 LEVEL_TEXT = ("Machine-checked proof, parametric for IN endpoints, per configuration for OUT endpoints and the decode. (1) IN: for every "
               "max_packet_size, endpoint number and input history the USBStreamInEndpoint model obeys the toggle rule seq_next -- DATA0 after "
@@ -342,8 +358,10 @@ LEVEL_TEXT = ("Machine-checked proof, parametric for IN endpoints, per configura
               "proved, for all traces over an explicit input alphabet, to be cleared exactly by a strobe naming this OUT endpoint, flipped "
               "exactly when the device ACKs a data packet carrying the expected PID, unchanged otherwise; a repeated PID is ACKed "
               "(certified reachability of netlist x monitor).  (3) decode: the clear_endpoint_halt strobe of StandardRequestHandler is "
-              "(1, wIndex[7], wIndex[3:0]) exactly at the host ACK while a CLEAR_FEATURE request is handled and 0 otherwise, for all traces "
-              "over all control-strobe combinations x 5-7 wIndex values.  (4) Checked, not proved: the same three monitors on simulator "
+              "(1, wIndex[7], wIndex[3:0]) exactly at a host ACK while the most recent SETUP packet is a not yet completed "
+              "CLEAR_FEATURE(ENDPOINT_HALT, recipient endpoint) and all-zero otherwise (any newer SETUP replaces the pending request; other "
+              "requests, selectors, recipients and non-standard types never produce it), for all traces over the explicit input alphabet, "
+              "without environment assumption.  (4) Checked, not proved: the same three monitors on simulator "
               "traces at realistic sizes (IN 64/512, OUT 64/127..512/1023).  On the UNCHANGED tree the check reports a violation of the IN "
               "rule (see ASSUMPTIONS); it passes with findings/C14-in-reset-lost-on-packet-ready.diff.")
 LEVEL_NOTE = ("Trusted: Coq kernel + vm_compute, Amaranth elaboration, nir2coq.py/Netlist.v and harness/slice.py (validated each run against "
